@@ -154,44 +154,49 @@ func (e *Engine) freeVars(n ast.Node) []*types.Var {
 // sortedAfterCollect: the loop only appends the key (or stores it at a running index) into a local slice that the
 // statements right after the loop sort before anything else reads it.
 func (e *Engine) sortedAfterCollect(ml *mapLoop) (string, bool) {
+	what, _, ok := e.sortedAfterCollectCall(ml)
+	return what, ok
+}
+
+func (e *Engine) sortedAfterCollectCall(ml *mapLoop) (string, *ast.CallExpr, bool) {
 	rs := ml.stmt
 	keyID, _ := rs.Key.(*ast.Ident)
 	if keyID == nil || rs.Value != nil && !isBlank(rs.Value) {
-		return "the loop must use only the key", false
+		return "the loop must use only the key", nil, false
 	}
 	var target string
 	switch len(rs.Body.List) {
 	case 1:
 		as, ok := rs.Body.List[0].(*ast.AssignStmt)
 		if !ok || len(as.Lhs) != 1 || len(as.Rhs) != 1 {
-			return "body is not a single append", false
+			return "body is not a single append", nil, false
 		}
 		call, ok := as.Rhs[0].(*ast.CallExpr)
 		if !ok || exprStr(call.Fun) != "append" || len(call.Args) != 2 || exprStr(call.Args[0]) != exprStr(as.Lhs[0]) {
-			return "body is not `x = append(x, key)`", false
+			return "body is not `x = append(x, key)`", nil, false
 		}
 		arg := exprStr(call.Args[1])
 		if arg != keyID.Name && !strings.HasSuffix(arg, "("+keyID.Name+")") {
-			return "the appended value is not the key", false
+			return "the appended value is not the key", nil, false
 		}
 		target = exprStr(as.Lhs[0])
 	case 2:
 		as, ok := rs.Body.List[0].(*ast.AssignStmt)
 		inc, ok2 := rs.Body.List[1].(*ast.IncDecStmt)
 		if !ok || !ok2 || len(as.Lhs) != 1 {
-			return "body is not `x[i] = key; i++`", false
+			return "body is not `x[i] = key; i++`", nil, false
 		}
 		ix, ok := as.Lhs[0].(*ast.IndexExpr)
 		if !ok || exprStr(ix.Index) != exprStr(inc.X) {
-			return "body is not `x[i] = key; i++`", false
+			return "body is not `x[i] = key; i++`", nil, false
 		}
 		rhs := exprStr(as.Rhs[0])
 		if rhs != keyID.Name && !strings.HasSuffix(rhs, "("+keyID.Name+")") {
-			return "the stored value is not the key", false
+			return "the stored value is not the key", nil, false
 		}
 		target = exprStr(ix.X)
 	default:
-		return "body has more than two statements", false
+		return "body has more than two statements", nil, false
 	}
 	// the statement after the loop must sort the target
 	var next ast.Stmt
@@ -212,17 +217,17 @@ func (e *Engine) sortedAfterCollect(ml *mapLoop) (string, bool) {
 	})
 	es, ok := next.(*ast.ExprStmt)
 	if !ok {
-		return "the loop is not followed by a sort", false
+		return "the loop is not followed by a sort", nil, false
 	}
 	call, ok := es.X.(*ast.CallExpr)
 	if !ok || len(call.Args) == 0 || exprStr(call.Args[0]) != target {
-		return "the loop is not followed by a sort of " + target, false
+		return "the loop is not followed by a sort of " + target, nil, false
 	}
 	switch exprStr(call.Fun) {
 	case "slices.Sort", "sort.Strings", "sort.Ints", "sort.Slice", "sort.SliceStable":
-		return target, true
+		return target, call, true
 	}
-	return "the loop is not followed by a sort of " + target, false
+	return "the loop is not followed by a sort of " + target, nil, false
 }
 
 func isBlank(x ast.Expr) bool {
@@ -254,14 +259,26 @@ func (e *Engine) runMapLoop(pk *Pkg, c *Contract) {
 	fr := &frame{fn: c.Name, contract: c, decl: ml.decl}
 	e.fr = fr
 	e.prepass(ml.decl.Body)
+	if why := c.Opts["uncovered"]; why != "" {
+		e.note("NOT COVERED: map-range loop at %s: %s", ml.pos, why)
+		return
+	}
 	if c.Opts["sorted"] != "" {
-		what, ok := e.sortedAfterCollect(ml)
+		what, call, ok := e.sortedAfterCollectCall(ml)
 		goal := "true"
 		if !ok {
 			goal = "false"
 		}
 		e.obligeNamed(st, "collect-then-sort", "post", goal, rs.Pos(), "the loop only collects the keys into a slice that is sorted right after it ("+what+")", "")
-		e.stubsUsed["collect-then-sort: the sort that follows the loop orders distinct keys uniquely"] = true
+		if ok {
+			switch exprStr(call.Fun) {
+			case "sort.Slice", "sort.SliceStable":
+				// a caller-supplied order decides the result only if it orders any two distinct keys
+				e.sortTotalOrder(ml, c, call, st)
+			default:
+				e.stubsUsed["collect-then-sort: "+exprStr(call.Fun)+" orders distinct keys of an ordered basic type uniquely"] = true
+			}
+		}
 		return
 	}
 	for _, v := range e.freeVars(rs) {
@@ -273,10 +290,8 @@ func (e *Engine) runMapLoop(pk *Pkg, c *Contract) {
 			st.vars[v] = val
 		}
 	}
+	e.bindResults(fr, ml.decl, pk, st)
 	e.entry = st.clone()
-	for _, a := range c.Assumes {
-		_ = a
-	}
 	m := e.ev(rs.X, st)
 	mt := types.Unalias(m.Typ).Underlying().(*types.Map)
 	pick := func(tag string) (Value, Value) {
@@ -310,10 +325,27 @@ func (e *Engine) runMapLoop(pk *Pkg, c *Contract) {
 			}
 		}
 	}
-	n := 0
-	run := func(s0 *State, k, v Value) *State {
+	if c.Opts["injective"] != "" {
+		// assumed of the data: distinct keys map to distinct values
+		e.assume("true", not(e.equal(v1, v2, rs.Pos())))
+		e.stubsUsed["assumed of the map "+exprStr(rs.X)+": distinct keys have distinct values (opt injective)"] = true
+	}
+	// An iteration either falls through to the next key (exit kind 0), leaves the loop (1) or returns from the
+	// function (2). The outcome of two iterations - exit kind, result values and every modified location - must be
+	// the same for both orders; a loop that stops at the first matching key is order-insensitive exactly when this
+	// holds (e.g. `if p(k) { return true }`).
+	exitKey := &synth{"maploop:exit"}
+	intT := types.Typ[types.Int]
+	mark := func(s *State, kind string) *State {
+		if s != nil {
+			s.vars[exitKey] = Value{e.ilit(kind), intT}
+		}
+		return s
+	}
+	// run executes the body for one key from s0; it returns the fall-through state and the early-exit states
+	run := func(s0 *State, k, v Value) (*State, []*State) {
 		if s0 == nil {
-			return nil
+			return nil, nil
 		}
 		s := s0.clone()
 		bind(s, k, v)
@@ -322,24 +354,43 @@ func (e *Engine) runMapLoop(pk *Pkg, c *Contract) {
 		end := e.execBlock(rs.Body.List, s)
 		e.popLoop()
 		end = e.merge(append([]*State{end}, lf.continues...))
+		var exits []*State
 		for _, b := range lf.breaks {
-			n++
-			e.obligeNamed(b, fmt.Sprintf("no-break#%d", n), "post", "false", rs.Pos(), "the body does not leave the loop early (an early exit makes the result depend on the order)", "")
+			exits = append(exits, mark(b, "1"))
 		}
 		for _, r := range fr.returns[nret:] {
-			n++
-			e.obligeNamed(r, fmt.Sprintf("no-break#%d", n), "post", "false", rs.Pos(), "the body does not return from inside the loop (an early exit makes the result depend on the order)", "")
+			exits = append(exits, mark(r, "2"))
 		}
 		fr.returns = fr.returns[:nret]
-		return end
+		return end, exits
 	}
-	s12 := run(run(st, k1, v1), k2, v2)
-	s21 := run(run(st, k2, v2), k1, v1)
+	two := func(ka, va, kb, vb Value) *State {
+		c1, x1 := run(st, ka, va)
+		c2, x2 := run(c1, kb, vb)
+		all := append(append([]*State{mark(c2, "0")}, x1...), x2...)
+		return e.merge(all)
+	}
+	s12 := two(k1, v1, k2, v2)
+	s21 := two(k2, v2, k1, v1)
 	if s12 == nil || s21 == nil {
 		return
 	}
 	both := s12.clone()
 	both.pc = and(s12.pc, s21.pc)
+	x12, x21 := s12.vars[exitKey], s21.vars[exitKey]
+	if x12.T != x21.T {
+		e.obligeNamed(both, "same:exit", "post", eq(x12.T, x21.T), rs.Pos(), "two iterations leave the loop (or the function) early in one order exactly when they do in the other", "")
+	}
+	for i, k := range fr.results {
+		a, okA := s12.vars[k]
+		b, okB := s21.vars[k]
+		if obj, isObj := k.(types.Object); isObj && e.boxed[obj] {
+			continue
+		}
+		if okA && okB && a.T != b.T {
+			e.obligeNamed(both, fmt.Sprintf("same:result%d", i), "post", implies(eq(x12.T, e.ilit("2")), eq(a.T, b.T)), rs.Pos(), "a return from inside the loop yields the same value for both orders of two iterations", "")
+		}
+	}
 	// variables
 	ms := e.modifiedIn(rs.Body)
 	var objs []types.Object
@@ -362,7 +413,12 @@ func (e *Engine) runMapLoop(pk *Pkg, c *Contract) {
 		if e.boxed[o] {
 			continue // compared through the heaps
 		}
-		e.obligeNamed(both, "same:"+o.Name(), "post", eq(a.T, b.T), rs.Pos(), "variable "+o.Name()+" ends up the same for both orders of two iterations", "")
+		goal := eq(a.T, b.T)
+		if x12.T != e.ilit("0") {
+			// after a return the function's locals are dead
+			goal = or(eq(x12.T, e.ilit("2")), goal)
+		}
+		e.obligeNamed(both, "same:"+o.Name(), "post", goal, rs.Pos(), "variable "+o.Name()+" ends up the same for both orders of two iterations", "")
 	}
 	// heaps
 	if s12.epoch != st.epoch || s21.epoch != st.epoch {
@@ -396,4 +452,121 @@ func (e *Engine) runMapLoop(pk *Pkg, c *Contract) {
 		e.obligeNamed(both, "same:"+h, "post", eq(a, b), rs.Pos(), "heap "+h+" ends up the same for both orders of two iterations", "")
 	}
 	e.canary(both, "maploop", rs.Pos())
+}
+
+// sortTotalOrder: the keys collected from the map are sorted with a caller-supplied less function (sort.Slice).
+// The sorted slice is independent of the collection order only if less decides every pair of distinct keys.
+// The obligation takes two arbitrary distinct keys of the map at two arbitrary distinct positions of the slice,
+// runs the real less function literal on (i, j) and on (j, i) and requires one of the two results to be true.
+// What makes two keys distinct beyond their identity is given by `opt sortkey FIELD...` (for pointer keys: two
+// distinct keys differ in at least one of these fields) - an assumption on the data, listed in the evidence.
+func (e *Engine) sortTotalOrder(ml *mapLoop, c *Contract, call *ast.CallExpr, st *State) {
+	rs := ml.stmt
+	fail := func(msg string) {
+		e.obligeNamed(st, "total-order", "post", "false", rs.Pos(), msg, "")
+	}
+	if len(call.Args) != 2 {
+		fail("sort call without a less function")
+		return
+	}
+	lit, ok := unparen(call.Args[1]).(*ast.FuncLit)
+	if !ok || lit.Type.Params == nil || lit.Type.Params.NumFields() != 2 {
+		fail("the less argument of the sort is not a function literal (i, j int) bool")
+		return
+	}
+	seen := map[*types.Var]bool{}
+	for _, n := range []ast.Node{rs, call} {
+		for _, v := range e.freeVars(n) {
+			if seen[v] {
+				continue
+			}
+			seen[v] = true
+			val := e.havocValue("in_"+v.Name(), v.Type())
+			e.refBound(st, val)
+			if e.boxed[v] {
+				e.declVar(st, v, val)
+			} else {
+				st.vars[v] = val
+			}
+		}
+	}
+	e.entry = st.clone()
+	m := e.ev(rs.X, st)
+	mt := types.Unalias(m.Typ).Underlying().(*types.Map)
+	pick := func(tag string) Value {
+		k := e.havocValue(tag+"k", mt.Key())
+		e.refBound(st, k)
+		_, has := e.mapGet(st, m, mt, k)
+		e.assume("true", has)
+		return k
+	}
+	ka, kb := pick("a"), pick("b")
+	e.assume("true", not(eq(e.keyTerm(ka), e.keyTerm(kb))))
+	tv := e.ev(call.Args[0], st)
+	sl, ok := types.Unalias(tv.Typ).Underlying().(*types.Slice)
+	if !ok || !types.Identical(sl.Elem(), mt.Key()) {
+		fail("the sorted slice does not hold the map's keys")
+		return
+	}
+	intT := types.Typ[types.Int]
+	i := Value{e.fresh("si", e.isort()), intT}
+	j := Value{e.fresh("sj", e.isort()), intT}
+	ln := sx("l_len", tv.T)
+	e.assume("true", and(e.le(e.izero(), i.T), e.lt(i.T, ln), e.le(e.izero(), j.T), e.lt(j.T, ln), not(eq(i.T, j.T))))
+	hn := elemHeapName(sl.Elem())
+	srt := e.arrSort(e.arrSort(e.sortOf(sl.Elem())))
+	h := e.heapGet(st, hn, srt)
+	at := func(ix string) string {
+		return sx("select", sx("select", h, sx("l_ref", tv.T)), e.add(sx("l_off", tv.T), ix))
+	}
+	e.assume("true", and(eq(at(i.T), ka.T), eq(at(j.T), kb.T)))
+	// identity of keys beyond the key value itself
+	if fields := strings.Fields(c.Opts["sortkey"]); len(fields) > 0 {
+		pt, ok := types.Unalias(mt.Key()).Underlying().(*types.Pointer)
+		var stt *types.Struct
+		if ok {
+			stt, _ = pt.Elem().Underlying().(*types.Struct)
+		}
+		if stt == nil {
+			fail("opt sortkey needs keys that are pointers to a struct")
+			return
+		}
+		var differ []string
+		for _, fname := range fields {
+			var fv *types.Var
+			for k := 0; k < stt.NumFields(); k++ {
+				if stt.Field(k).Name() == fname {
+					fv = stt.Field(k)
+				}
+			}
+			if fv == nil {
+				fail("opt sortkey: no field " + fname)
+				return
+			}
+			fa := e.loadField(st, ka.T, pt.Elem(), fname, fv.Type())
+			fb := e.loadField(st, kb.T, pt.Elem(), fname, fv.Type())
+			same := e.equal(fa, fb, rs.Pos())
+			differ = append(differ, not(same))
+			if isString(fv.Type()) {
+				// Go's string order is a strict total order
+				e.declareFun("op_strlt", []string{"Str", "Str"}, "Bool")
+				e.assume("true", or(same, sx("op_strlt", fa.T, fb.T), sx("op_strlt", fb.T, fa.T)))
+			}
+		}
+		e.assume("true", or(differ...))
+		e.stubsUsed["assumed identity of sorted keys: two distinct keys of "+exprStr(rs.X)+" differ in one of the fields "+strings.Join(fields, ", ")] = true
+	}
+	s1 := st.clone()
+	r1 := e.inlineClosure(call, lit, []Value{i, j}, s1)
+	s2 := st.clone()
+	r2 := e.inlineClosure(call, lit, []Value{j, i}, s2)
+	if len(r1) != 1 || len(r2) != 1 {
+		fail("less does not return one value")
+		return
+	}
+	both := st.clone()
+	both.pc = and(s1.pc, s2.pc)
+	e.obligeNamed(both, "total-order", "post", or(r1[0].T, r2[0].T), rs.Pos(),
+		"the less function of the sort that follows the loop orders any two distinct keys (otherwise equal elements keep the map's iteration order)", "")
+	e.canary(both, "maploop-sort", rs.Pos())
 }
